@@ -310,7 +310,7 @@ class CircuitOperation(ops.Operation):
             return NotImplemented
 
         # The mapped loop has the parameters bound and is already inverted for negative repetitions.
-        u = np.eye(self.qubits[0].dimension, dtype=np.complex128)
+        u = np.eye(self.qubits[0].dimension if self.qubits else 1, dtype=np.complex128)
         for op in self._mapped_any_loop.all_operations():
             op_unitary = protocols.unitary(op)
             # Zero-qubit operations (global phases) contribute a scalar.
